@@ -13,7 +13,7 @@ STORY_IDS = ['A', 'B', 'C', 'D', 'E', 'F', 'G', 'H']
 ITEM_IDS = ['i1', 'i2', 'i3', 'i4', 'i5', 'i6']
 UNKNOWN = 'ZZ'
 
-RO_LAYOUTS = ['plain', 'between', 'trailing', 'nometa', 'bare', 'blankids', 'noids', 'decoys']
+RO_LAYOUTS = ['plain', 'between', 'trailing', 'nometa', 'bare', 'blankids', 'noids', 'decoys', 'dupstories']
 PARA_LAYOUTS = ['none', 'between', 'leading', 'trailing']
 TIMINGS = ['all', 'none', 'mixed']
 
@@ -66,6 +66,10 @@ def make_ro(story_ids, layout='plain', items=None, para_layout='none', timing='n
             kids.append(story(None, body=[item(ITEM_IDS[0], slug='in-blank'), item(None, slug='blank-item')], slug='Blank'))
             if layout == 'noids':
                 kids.append(story(ABSENT, body=[item(ITEM_IDS[0], slug='in-noid'), item(ABSENT, slug='noid-item')], slug='NoId'))
+    if layout == 'dupstories' and story_ids:
+        # a second story with the ID of the first one (other items, other slug) at the end: every lookup finds the first
+        kids.append(story(story_ids[0], body=[item(ITEM_IDS[0], slug='twin-1'), p('twin para'), item('twin-only', slug='twin-2')],
+                          slug='Twin of ' + str(story_ids[0])))
     if layout == 'decoys':
         add_decoys(kids)
     if layout == 'bare':
@@ -208,7 +212,7 @@ def item_level_messages(story_refs, existing_items, max_src=2):
                 if srcs:
                     yield 'EAItemMove', element_action(mid, 'MOVE', ea_target(sid, tgt), [[ref('itemID', i) for i in srcs]]), {'story': sid, 'target': tgt, 'sources': srcs}
         for ids in selections(irefs, 3, min_len=1, repeats=True):
-            if len(ids) == 3 and max_src < 3:
+            if len(ids) == 3 and max_src < 2:
                 continue
             yield 'EAItemSwap', element_action(mid, 'SWAP', [ref('storyID', sid)], [[ref('itemID', i) for i in ids]]), {'story': sid, 'ids': ids}
 
@@ -253,6 +257,10 @@ def merge_cases_item(n_max=4, max_src=2, para_layouts=PARA_LAYOUTS):
                 meta = dict(meta, cls=cls, n=n, para=pl)
                 yield {'ro': ro, 'msg': to_text(doc), 'meta': meta}
     yield from merge_cases_placeholder(max_src=min(max_src, 2))
+    # two stories share an ID: item operations address the first one only (the twin holds an item the first lacks)
+    ro = to_text(make_ro(['A', 'B'], layout='dupstories'))
+    for cls, doc, meta in item_level_messages(['A'], ITEM_IDS[:2] + ['twin-only'], max_src=1):
+        yield {'ro': ro, 'msg': to_text(doc), 'meta': dict(meta, cls=cls, n=2, para='dupstories')}
 
 
 def merge_cases_placeholder(max_src=2):
@@ -363,8 +371,11 @@ def random_story_message(rng, sids, mid, fresh):
         sid = _pick_ref(rng, sids)
         body = [p('para %d' % mid), E('storyItem', E('itemID', text='s%d' % mid)), p()]
         rng.shuffle(body)
-        return story_send(mid, sid, body=body, pre=[E('storySlug', text='sent %d' % mid)],
-                          post=[payload(duration=str(rng.randrange(1, 40)))] if rng.random() < 0.5 else [])
+        d = story_send(mid, sid, body=body, pre=[E('storySlug', text='sent %d' % mid)],
+                       post=[payload(duration=str(rng.randrange(1, 40)))] if rng.random() < 0.5 else [])
+        if rng.random() < 0.3:
+            d[3].find('storyBody').set('Read1stMEMasBody', 'true')
+        return d
     if kind == 'append':
         return story_append(mid, [new_story(s) for s in newids(rng.randrange(0, 3))])
     if kind == 'delete':
